@@ -1,5 +1,233 @@
-From Coq Require Import List Arith Lia PeanoNat ZArith.
-From TV Require Import Num.Ops Model.Tensors Proofs.TensorsP.
+(* C19 — explicit constructors build exactly the tensor they describe.
+   Only statements, each closed by [exact]; non-vacuity Examples at the end of each family.
+   The denotation of a TT tensor is [get K Y idx].  Vocabulary (Proofs/Tensors*.v):
+     shp ns Y        Y has length ns cores, the k-th of shape (1, n_k, 1)
+     inb ns idx      idx is a multi-index inside the shape ns
+     zin ns iz       iz is a list of Python ints with 0 <= iz_k < n_k (and length d)
+     zpos ns i       -n_k <= i_k < n_k (numpy negative positions allowed); npos ns i = the normalised position
+     root_law        the d-th root oracle satisfies (root |v|)^d = |v| on the branch |v| > 1e-16
+     sign_law        |v| * (|v| / v) = v on that branch (true in any ordered field: C19_sign_law_Qc)
+     zbits q j       little-endian binary digits of j (multi-index of entry j of a QTT vector)
+     zbits2 q a b    digits 2*c_k + r_k of the pair (a, b) (multi-index of a QTT matrix with (1,4,1)-flattened cores)
+     coff ns r k     offset of core k in the one flat vector drawn by rand_custom *)
+From Coq Require Import List Arith Lia PeanoNat ZArith QArith Qcanon.
+From TV Require Import Num.Ops Lin.BigSum TT.Chain Model.Tensors
+  Proofs.TensorsP Proofs.TensorsQttP Proofs.TensorsPolyP Proofs.TensorsRandP.
 Import ListNotations.
-Example C19_stub : vector_index_prepare 3 (-3) = Ok 5%Z.
-Proof. exact stub_example. Qed.
+Local Open Scope nat_scope.
+
+(* ---------------- const ---------------- *)
+(* no zero list: v everywhere — v > 0, v < 0, v = 0 and the tiny branch (s = v, rho = 1) alike *)
+Theorem C19_const_denote : forall T (K : ops T), rng K ->
+  forall (tiny : T) (root : T -> T) (ns : list nat) (v : T) (inz : option (list Z)),
+  ns <> [] -> root_law K tiny root (length ns) v -> sign_law K tiny v ->
+  exists Y, const K tiny root ns v None inz = Ok Y /\ shp ns Y /\ forall idx, inb ns idx -> get K Y idx = v.
+Proof. exact @const_none. Qed.
+
+(* over the rationals the sign law is a theorem, so only the root law remains *)
+Theorem C19_sign_law_Qc : forall tiny v : Qc, (0 <= tiny)%Qc -> sign_law OQc tiny v.
+Proof. exact Qc_sign_law. Qed.
+
+(* zero list and protected index: exactly what the round-robin loop does *)
+Theorem C19_const_zeros : forall T (K : ops T), rng K ->
+  forall (tiny : T) (root : T -> T) (ns : list nat) (v : T) (Iz : list (list Z)) (inz : option (list Z)),
+  ns <> [] -> Forall (zin ns) Iz -> (forall nz, inz = Some nz -> zin ns nz) ->
+  root_law K tiny root (length ns) v -> sign_law K tiny v ->
+  match const K tiny root ns v (Some Iz) inz with
+  | Ok Y =>
+      shp ns Y /\
+      Forall (fun iz => inz <> Some iz) Iz /\                                     (* no conflicting request *)
+      (forall idx, inb ns idx -> get K Y idx = v \/ get K Y idx = o0 K) /\        (* only the values v and 0 *)
+      (forall iz, In iz Iz -> get K Y (map Z.to_nat iz) = o0 K) /\                (* zero at every listed index *)
+      (forall nz, inz = Some nz -> get K Y (map Z.to_nat nz) = v)                 (* v at the protected index *)
+  | Err e => e = ValueError /\ Exists (fun iz => inz = Some iz) Iz                (* raised only on a conflict *)
+  end.
+Proof. exact @const_zeros. Qed.
+
+Theorem C19_const_zeros_no_protected_index : forall T (K : ops T) (tiny : T) (root : T -> T) ns v Iz,
+  ns <> [] -> Forall (zin ns) Iz -> exists Y, const K tiny root ns v (Some Iz) None = Ok Y.
+Proof. exact @const_zeros_noprot_ok. Qed.
+
+(* non-vacuity over Z (tiny = 0, root = 2, d = 3, v = -8): hypotheses hold, both outcomes occur *)
+Example C19_const_example :
+  root_law OZ 0%Z (fun _ => 2%Z) 3 (-8)%Z /\ sign_law OZ 0%Z (-8)%Z /\
+  zin [2; 3; 2] [1; 2; 0]%Z /\
+  (exists Y, const OZ 0%Z (fun _ => 2%Z) [2; 3; 2] (-8)%Z (Some [[0; 1; 1]; [0; 1; 0]; [1; 2; 1]; [0; 2; 1]]%Z) (Some [0; 1; 1]%Z) = Err ValueError /\
+             const OZ 0%Z (fun _ => 2%Z) [2; 3; 2] (-8)%Z (Some [[0; 1; 0]; [1; 2; 1]; [0; 2; 1]; [1; 1; 1]]%Z) (Some [0; 1; 1]%Z) = Ok Y /\
+             get OZ Y [0; 1; 1] = (-8)%Z /\ get OZ Y [0; 1; 0] = 0%Z /\ get OZ Y [1; 1; 1] = 0%Z /\ get OZ Y [0; 0; 1] = (-8)%Z) /\
+  (exists Y, const OZ 0%Z (fun _ => 2%Z) [2; 2] 0%Z None None = Ok Y /\ get OZ Y [1; 0] = 0%Z).
+Proof.
+  split; [intros _; reflexivity|]. split; [intros _; reflexivity|]. split; [repeat constructor; lia|].
+  split; eexists; repeat split; vm_compute; reflexivity.
+Qed.
+
+(* ---------------- delta ---------------- *)
+Theorem C19_delta_denote : forall T (K : ops T), rng K ->
+  forall (tiny : T) (root : T -> T) (ns : list nat) (i : list Z) (v : T),
+  ns <> [] -> zpos ns i -> root_law K tiny root (length ns) v -> sign_law K tiny v ->
+  exists Y, delta K tiny root ns i v = Ok Y /\ shp ns Y /\
+    get K Y (npos ns i) = v /\
+    forall idx, inb ns idx -> idx <> npos ns i -> get K Y idx = o0 K.
+Proof. exact @delta_denote. Qed.
+
+(* the first out-of-range component raises (numpy: IndexError) *)
+Theorem C19_delta_out_of_range : forall T (K : ops T) (tiny : T) (root : T -> T) ns (i : list Z) (v : T) k,
+  ns <> [] -> length i = length ns -> k < length ns ->
+  (nth k i 0 < - Z.of_nat (nth k ns 0) \/ Z.of_nat (nth k ns 0) <= nth k i 0)%Z ->
+  (forall t, t < k -> (- Z.of_nat (nth t ns 0) <= nth t i 0 < Z.of_nat (nth t ns 0))%Z) ->
+  delta K tiny root ns i v = Err IndexError.
+Proof. exact @delta_out_of_range. Qed.
+
+Example C19_delta_example :
+  zpos [2; 3; 2] [1; -1; 0]%Z /\ npos [2; 3; 2] [1; -1; 0]%Z = [1; 2; 0] /\
+  exists Y, delta OZ 0%Z (fun _ => 2%Z) [2; 3; 2] [1; -1; 0]%Z (-8)%Z = Ok Y /\
+            get OZ Y [1; 2; 0] = (-8)%Z /\ get OZ Y [1; 1; 0] = 0%Z.
+Proof. split; [repeat constructor; lia|]. split; [reflexivity|]. eexists; repeat split; vm_compute; reflexivity. Qed.
+
+(* ---------------- QTT delta vector / matrix ---------------- *)
+(* _vector_index_prepare returns a non-negative in-range position: the negative branch of
+   _vector_index_expand is unreachable from vector_delta / matrix_delta *)
+Theorem C19_prepare_range : forall q i i', vector_index_prepare q i = Ok i' -> (0 <= i' < 2 ^ Z.of_nat q)%Z.
+Proof. exact prepare_range. Qed.
+
+Theorem C19_vector_delta_denote : forall T (K : ops T), rng K -> forall q (i : Z) (v : T),
+  1 <= q <= 53 -> (- 2 ^ Z.of_nat q <= i < 2 ^ Z.of_nat q)%Z ->
+  exists Y, vector_delta K q i v = Ok Y /\ shp (repeat 2 q) Y /\
+    forall j, (0 <= j < 2 ^ Z.of_nat q)%Z ->
+      get K Y (zbits q j) = if (j =? i mod 2 ^ Z.of_nat q)%Z then v else o0 K.
+Proof. exact @vector_delta_denote. Qed.
+
+Theorem C19_vector_delta_out_of_range : forall T (K : ops T) q (i : Z) (v : T),
+  (i < - 2 ^ Z.of_nat q \/ 2 ^ Z.of_nat q <= i)%Z -> vector_delta K q i v = Err ValueError.
+Proof. exact @vector_delta_out_of_range. Qed.
+
+Theorem C19_matrix_delta_denote : forall T (K : ops T), rng K -> forall q (i j : Z) (v : T),
+  1 <= q <= 53 -> (- 2 ^ Z.of_nat q <= i < 2 ^ Z.of_nat q)%Z -> (- 2 ^ Z.of_nat q <= j < 2 ^ Z.of_nat q)%Z ->
+  exists Y, matrix_delta K q i j v = Ok Y /\ shp (repeat 4 q) Y /\
+    forall a b, (0 <= a < 2 ^ Z.of_nat q)%Z -> (0 <= b < 2 ^ Z.of_nat q)%Z ->
+      get K Y (zbits2 q a b) =
+        if ((a =? i mod 2 ^ Z.of_nat q) && (b =? j mod 2 ^ Z.of_nat q))%Z then v else o0 K.
+Proof. exact @matrix_delta_denote. Qed.
+
+Theorem C19_matrix_delta_out_of_range : forall T (K : ops T) q (i j : Z) (v : T),
+  (i < - 2 ^ Z.of_nat q \/ 2 ^ Z.of_nat q <= i \/ j < - 2 ^ Z.of_nat q \/ 2 ^ Z.of_nat q <= j)%Z ->
+  matrix_delta K q i j v = Err ValueError.
+Proof. exact @matrix_delta_out_of_range. Qed.
+
+Example C19_qtt_delta_example :
+  zbits 3 5 = [1; 0; 1] /\ zbits2 2 1 2 = [2; 1] /\
+  (exists Y, vector_delta OZ 3 (-3) 7%Z = Ok Y /\ get OZ Y (zbits 3 5) = 7%Z /\ get OZ Y (zbits 3 4) = 0%Z) /\
+  (exists Y, matrix_delta OZ 2 1 (-2) 7%Z = Ok Y /\ get OZ Y (zbits2 2 1 2) = 7%Z /\ get OZ Y (zbits2 2 2 1) = 0%Z).
+Proof. split; [reflexivity|]. split; [reflexivity|]. split; eexists; repeat split; vm_compute; reflexivity. Qed.
+
+(* The bound q <= 53 is sharp for the code as written: _vector_index_expand halves with int(i / 2), a binary64
+   division (modelled by py_half), which rounds from 2^53 on.  At q = 54 the in-range position 2^54 - 1 is
+   rejected, and at q = 55 the position 2^54 + 3 gets the digits of another position. *)
+Example C19_vector_delta_q54_boundary :
+  vector_delta OZ 54 (2 ^ 54 - 1) 1%Z = Err ValueError /\
+  vector_index_expand 55 (2 ^ 54 + 3) <> Ok (zbits 55 (2 ^ 54 + 3)).
+Proof. split; [vm_compute; reflexivity|]. vm_compute. intros H. discriminate H. Qed.
+
+(* ---------------- poly ---------------- *)
+Theorem C19_poly_denote : forall T (K : ops T), rng K ->
+  forall (ns : list nat) (shift : T + list T) (power : nat) (scale : T) (idx : list nat),
+  2 <= length ns -> (forall l, shift = inr l -> length l = length ns) -> inb ns idx ->
+  exists Y, poly K ns shift power scale = Ok Y /\ wf 1 Y idx /\
+    get K Y idx = omul K scale (bsum K (length ns) (fun k =>
+                    tpow K (oadd K (ofnat K (nth k idx 0)) (shift_at K shift k)) power)).
+Proof. exact @poly_denote. Qed.
+
+Example C19_poly_example :
+  exists Y, poly OZ [2; 3; 2] (inr [1; -1; 0]%Z) 2 3%Z = Ok Y /\
+            get OZ Y [1; 2; 1] = (3 * ((1 + 1) ^ 2 + (2 - 1) ^ 2 + (1 + 0) ^ 2))%Z /\
+  exists Y2, poly OZ [4; 2] (inl 2%Z) 3 (-1)%Z = Ok Y2 /\ get OZ Y2 [3; 0] = (- ((3 + 2) ^ 3 + (0 + 2) ^ 3))%Z.
+Proof. eexists; split; [vm_compute; reflexivity|]. split; [vm_compute; reflexivity|]. eexists; split; vm_compute; reflexivity. Qed.
+
+(* ---------------- random constructors ---------------- *)
+(* the layout: ONE flat vector f(N), cut into Fortran-ordered cores; requested shape and rank profile *)
+Theorem C19_rand_custom_layout : forall T (K : ops T) (ns : list nat) (r : nat + list nat) (f : nat -> list T),
+  length (f (coff ns r (length ns))) = coff ns r (length ns) ->
+  exists Y, rand_custom K ns r f = Ok Y /\ length Y = length ns /\
+    forall k, k < length ns ->
+      cr1 (nth k Y dm) = nth k (rank_profile (length ns) r) 0 /\ cn (nth k Y dm) = nth k ns 0 /\
+      cr2 (nth k Y dm) = nth (S k) (rank_profile (length ns) r) 0 /\
+      forall a i b, a < nth k (rank_profile (length ns) r) 0 -> i < nth k ns 0 ->
+                    b < nth (S k) (rank_profile (length ns) r) 0 ->
+        coff ns r k + a + nth k (rank_profile (length ns) r) 0 * (i + nth k ns 0 * b) < coff ns r (length ns) /\
+        cget K (nth k Y dm) a i b =
+          nth (coff ns r k + a + nth k (rank_profile (length ns) r) 0 * (i + nth k ns 0 * b))
+              (f (coff ns r (length ns))) (o0 K).
+Proof. exact @rand_custom_layout. Qed.
+
+Theorem C19_rand_custom_wf : forall T (K : ops T) (ns : list nat) (r : nat + list nat) (f : nat -> list T) idx,
+  length (f (coff ns r (length ns))) = coff ns r (length ns) -> inb ns idx ->
+  exists Y, rand_custom K ns r f = Ok Y /\
+    wfo (nth 0 (rank_profile (length ns) r) 0) Y idx (nth (length ns) (rank_profile (length ns) r) 0) /\
+    shape Y = ns /\
+    map (@cr1 T) Y = firstn (length ns) (Tab.tab (S (length ns)) (fun k => nth k (rank_profile (length ns) r) 0)) /\
+    map (@cr2 T) Y = Tab.tab (length ns) (fun k => nth (S k) (rank_profile (length ns) r) 0).
+Proof. exact @rand_custom_wf. Qed.
+
+(* a scalar rank r stands for [1, r, ..., r, 1] *)
+Theorem C19_rank_profile_scalar : forall d x, 1 <= d ->
+  length (rank_profile d (inl x)) = S d /\ nth 0 (rank_profile d (inl x)) 0 = 1 /\
+  nth d (rank_profile d (inl x)) 0 = 1 /\ forall k, 1 <= k < d -> nth k (rank_profile d (inl x)) 0 = x.
+Proof. exact rank_profile_scalar. Qed.
+
+(* every entry is one of the drawn values: whatever holds of all draws (range [a,b), ...) holds of all entries *)
+Theorem C19_rand_custom_entries : forall T (K : ops T) ns r (f : nat -> list T) (P : T -> Prop),
+  length (f (coff ns r (length ns))) = coff ns r (length ns) -> Forall P (f (coff ns r (length ns))) ->
+  exists Y, rand_custom K ns r f = Ok Y /\
+    forall k a i b, k < length ns -> a < cr1 (nth k Y dm) -> i < cn (nth k Y dm) -> b < cr2 (nth k Y dm) ->
+      P (cget K (nth k Y dm) a i b).
+Proof. exact @rand_custom_entries. Qed.
+Theorem C19_rand_entries : forall T (K : ops T) ns r (a b : T) (uniform : T -> T -> nat -> list T) (P : T -> Prop),
+  let N := coff ns r (length ns) in
+  length (uniform a b N) = N -> Forall P (uniform a b N) ->
+  exists Y, rand K ns r a b uniform = Ok Y /\
+    forall k x i y, k < length ns -> x < cr1 (nth k Y dm) -> i < cn (nth k Y dm) -> y < cr2 (nth k Y dm) ->
+      P (cget K (nth k Y dm) x i y).
+Proof. exact @rand_entries. Qed.
+Theorem C19_rand_norm_entries : forall T (K : ops T) ns r (m s : T) (normal : T -> T -> nat -> list T) (P : T -> Prop),
+  let N := coff ns r (length ns) in
+  length (normal m s N) = N -> Forall P (normal m s N) ->
+  exists Y, rand_norm K ns r m s normal = Ok Y /\
+    forall k x i y, k < length ns -> x < cr1 (nth k Y dm) -> i < cn (nth k Y dm) -> y < cr2 (nth k Y dm) ->
+      P (cget K (nth k Y dm) x i y).
+Proof. exact @rand_norm_entries. Qed.
+
+Example C19_rand_custom_example :
+  let f := fun n => map Z.of_nat (seq 0 n) in
+  coff [2; 3; 2] (inl 2) 3 = 20 /\ length (f 20) = 20 /\
+  exists Y, rand_custom OZ [2; 3; 2] (inl 2) f = Ok Y /\ map (@cr1 Z) Y = [1; 2; 2] /\ map (@cr2 Z) Y = [2; 2; 1] /\
+            cget OZ (nth 1 Y dm) 1 2 1 = (4 + 1 + 2 * (2 + 3 * 1))%Z.
+Proof. split; [reflexivity|]. split; [reflexivity|]. eexists; repeat split; vm_compute; reflexivity. Qed.
+
+(* ---------------- rand_stab ---------------- *)
+(* cores = rectangular identity + the generator's draw *)
+Theorem C19_rand_stab_cores : forall T (K : ops T) ns r (noise : T)
+  (normal : nat -> T -> T -> nat * nat * nat -> nat -> nat -> nat -> T),
+  let d := length ns in let rs := rank_profile d r in
+  length (rand_stab K ns r noise normal) = d /\
+  forall k, k < d ->
+    let G := nth k (rand_stab K ns r noise normal) dm in
+    cr1 G = nth k rs 0 /\ cn G = nth k ns 0 /\ cr2 G = nth (S k) rs 0 /\
+    forall a p b, a < nth k rs 0 -> p < nth k ns 0 -> b < nth (S k) rs 0 ->
+      cget K G a p b = oadd K (normal k (o0 K) noise (nth k rs 0, nth k ns 0, nth (S k) rs 0) a p b) (eye K a b).
+Proof. exact @rand_stab_cores. Qed.
+
+(* zero noise (normal(0, s) = s * g): the tensor is all ones, in any dimension and for any positive ranks *)
+Theorem C19_rand_stab_ones : forall T (K : ops T), rng K -> forall ns r (noise : T)
+  (normal : nat -> T -> T -> nat * nat * nat -> nat -> nat -> nat -> T)
+  (g : nat -> nat * nat * nat -> nat -> nat -> nat -> T) idx,
+  let d := length ns in let rs := rank_profile d r in
+  (forall k sz a p b, normal k (o0 K) noise sz a p b = omul K noise (g k sz a p b)) -> noise = o0 K ->
+  nth 0 rs 0 = 1 -> nth d rs 0 = 1 -> (forall k, k <= d -> 1 <= nth k rs 0) -> inb ns idx ->
+  wf 1 (rand_stab K ns r noise normal) idx /\ get K (rand_stab K ns r noise normal) idx = o1 K.
+Proof. exact @rand_stab_zero_noise. Qed.
+
+Example C19_rand_stab_example :
+  let Y := rand_stab OZ [2; 3; 2] (inr [1; 2; 3; 1]) 0%Z (fun _ _ s _ a p b => (s * Z.of_nat (a + p + b))%Z) in
+  get OZ Y [1; 2; 0] = 1%Z /\ get OZ Y [0; 0; 1] = 1%Z /\
+  get OZ (rand_stab OZ [2; 3; 2] (inl 2) 1%Z (fun _ _ s _ a p b => (s * Z.of_nat (a + p + b))%Z)) [1; 2; 0] <> 1%Z.
+Proof. repeat split; vm_compute; congruence. Qed.
